@@ -368,7 +368,13 @@ pub fn run(rt: &tokio::runtime::Runtime, pool: &KeyPool, sc: &Value) -> Value {
                 }
                 // switch the "published repository" to a directory (e.g. a cache written earlier)
                 "use_dir" => {
-                    let d = PathBuf::from(op["dir"].as_str().unwrap());
+                    let mut dir = op["dir"].as_str().unwrap().to_string();
+                    if let Some(k) = dir.strip_prefix('@') {
+                        let k: usize = k.parse().unwrap();
+                        let r: &Value = &results[k];
+                        dir = if r[0] == json!(0) && r.as_array().map(|a| a.len() > 3).unwrap_or(false) { string(&r[3]) } else { "/nonexistent".to_string() };
+                    }
+                    let d = PathBuf::from(dir);
                     s.metadata = d.join("metadata");
                     s.targets = d.join("targets");
                     Ok(json!([0]))
